@@ -25,8 +25,11 @@ package netpoll
 //@ ghost map blknode *linkBufferNode
 //@ ghost map cacheown *UnsafeLinkBuffer
 //@ ghost map cacheidx int
+//@ ghost map cachesof *UnsafeLinkBuffer
+//@ ghost map peekown *UnsafeLinkBuffer
 //   blknode[a]  the one managed node whose buf is block a (the node that will return it), 0 if none
 //   cacheown[a], cacheidx[a]  the buffer whose caches slice holds block a, and at which index (0: none)
+//   cachesof[a]  the buffer whose caches slice is backed by array a; peekown[a]  the buffer whose cachePeek is block a
 
 //@ pure nlen(n *linkBufferNode) int = len(n.buf) - n.off
 //@ pure inb(b *UnsafeLinkBuffer, n *linkBufferNode) bool = n != nil && n.own == b
@@ -36,31 +39,31 @@ package netpoll
 
 //@ pred wfcur(b *UnsafeLinkBuffer) = b != nil && inb(b, b.head) && inb(b, b.read) && inb(b, b.flush) && inb(b, b.write)
 //@     && b.head.ord <= b.read.ord && b.read.ord <= b.flush.ord && b.flush.ord <= b.write.ord
-//@ pred wflin(b *UnsafeLinkBuffer) = forall n *linkBufferNode, m *linkBufferNode {n.ord, m.ord} ::
+//@ pred wflin(b *UnsafeLinkBuffer) = forall n *linkBufferNode, m *linkBufferNode {n.next, m.ord} ::
 //@     inb(b, n) && inb(b, m) && n.ord < m.ord ==> n.next != nil && n.next.own == b && n.next.ord > n.ord && n.next.ord <= m.ord
 //@ pred wfclosed(b *UnsafeLinkBuffer) = forall n *linkBufferNode {n.next} ::
 //@     inb(b, n) && n.next != nil ==> n.next.own == b && n.next.ord > n.ord
 //@ pred wfuniq(b *UnsafeLinkBuffer) = forall n *linkBufferNode, m *linkBufferNode {n.ord, m.ord} ::
 //@     inb(b, n) && inb(b, m) && n.ord == m.ord ==> n == m
 //@ pred wfnode(b *UnsafeLinkBuffer) = forall n *linkBufferNode ::
-//@     inb(b, n) ==> 0 <= n.off && n.off <= len(n.buf) && len(n.buf) <= n.malloc && n.malloc <= cap(n.buf)
+//@     inb(b, n) ==> allocated(n) && 0 <= n.off && n.off <= len(n.buf) && len(n.buf) <= n.malloc && n.malloc <= cap(n.buf)
 //@ pred wfshape(b *UnsafeLinkBuffer) = forall n *linkBufferNode :: inb(b, n) ==>
 //@     (n.ord < b.flush.ord ==> len(n.buf) == n.malloc)
 //@     && (n.ord > b.flush.ord ==> len(n.buf) == n.off)
 //@     && (n.ord > b.write.ord ==> n.malloc == len(n.buf))
-//@ pred wfpos(b *UnsafeLinkBuffer) = forall n *linkBufferNode ::
+//@ pred wfpos(b *UnsafeLinkBuffer) = forall n *linkBufferNode {n.next} ::
 //@     inb(b, n) && b.read.ord <= n.ord && n.ord < b.write.ord ==> n.next.sp + n.next.off == n.sp + n.malloc
 //@ pred wfref(b *UnsafeLinkBuffer) = forall n *linkBufferNode ::
 //@     inb(b, n) ==> n.origin == nil && n.kids >= 0 && n.refer == 1 + n.kids && (n.ord > b.flush.ord ==> n.kids == 0)
 // managed nodes hold a whole, live pool block (or a dirtmake array larger than mallocMax) and are its only holder
-//@ pred managedok(n *linkBufferNode) = n.buf#base == 0 && n.buf#arr != 0 && allocated(n.buf) && cap(n.buf) > 0 && blknode[n.buf#arr] == n
+//@ pred managedok(n *linkBufferNode) = n.buf#base == 0 && n.buf#arr != 0 && allocated(n.buf) && cap(n.buf) > 0 && blknode[n.buf#arr] == n && cacheown[n.buf#arr] == nil && peekown[n.buf#arr] == nil
 //@     && (cap(n.buf) <= mallocMax ==> pool[n.buf#arr] == 1)
 //@ pred wfpool(b *UnsafeLinkBuffer) = forall n *linkBufferNode :: inb(b, n) && n.mode & 1 == 0 ==> managedok(n)
 //@ pred wfpeek(b *UnsafeLinkBuffer) = len(b.cachePeek) >= 0 && len(b.cachePeek) <= cap(b.cachePeek) && (len(b.cachePeek) > 0 ==> b.peekpos == b.read.sp + b.read.off)
-//@     && (b.cachePeek != nil ==> b.cachePeek#base == 0 && allocated(b.cachePeek) && cap(b.cachePeek) > 0 && blknode[b.cachePeek#arr] == 0 && (cap(b.cachePeek) <= mallocMax ==> pool[b.cachePeek#arr] == 1))
+//@     && (b.cachePeek != nil ==> peekown[b.cachePeek#arr] == b && b.cachePeek#base == 0 && allocated(b.cachePeek) && cap(b.cachePeek) > 0 && blknode[b.cachePeek#arr] == 0 && (cap(b.cachePeek) <= mallocMax ==> pool[b.cachePeek#arr] == 1))
 //@ pred cacheok(b *UnsafeLinkBuffer, i int) = b.caches[i]#base == 0 && b.caches[i]#arr != 0 && allocated(b.caches[i]) && cap(b.caches[i]) > 0
-//@     && cap(b.caches[i]) <= mallocMax && pool[b.caches[i]#arr] == 1 && blknode[b.caches[i]#arr] == 0 && cacheown[b.caches[i]#arr] == b && cacheidx[b.caches[i]#arr] == i
-//@ pred wfcaches(b *UnsafeLinkBuffer) = len(b.caches) >= 0 && (b.caches != nil ==> allocated(b.caches)) && (forall i int {b.caches[i]#arr}{b.caches[i]#base}{b.caches[i]#cap} :: 0 <= i && i < len(b.caches) ==> cacheok(b, i))
+//@     && cap(b.caches[i]) <= mallocMax && pool[b.caches[i]#arr] == 1 && blknode[b.caches[i]#arr] == 0 && cacheown[b.caches[i]#arr] == b && cacheidx[b.caches[i]#arr] == i && peekown[b.caches[i]#arr] == nil
+//@ pred wfcaches(b *UnsafeLinkBuffer) = len(b.caches) >= 0 && (b.caches != nil ==> allocated(b.caches) && cachesof[b.caches#arr] == b) && (b.caches == nil ==> len(b.caches) == 0) && (forall i int {b.caches[i]#arr}{b.caches[i]#base}{b.caches[i]#cap} :: 0 <= i && i < len(b.caches) ==> cacheok(b, i))
 //@     && (b.cachePeek != nil ==> cacheown[b.cachePeek#arr] == nil)
 //@ pred wfhead(b *UnsafeLinkBuffer) = forall n *linkBufferNode :: inb(b, n) ==> n.ord >= b.head.ord
 // stream positions grow along the chain
@@ -124,8 +127,8 @@ package netpoll
 //@   ensures fresh(result) && result#arr != 0 && len(result) == size && cap(result) >= capacity && cap(result) > 0 && result#base == 0
 //@   ensures capacity > mallocMax ==> cap(result) == capacity && pool[result#arr] == 0
 //@   ensures capacity <= mallocMax ==> cap(result) <= mallocMax && pool[result#arr] == 1
-//@   ensures blknode[result#arr] == 0 && cacheown[result#arr] == nil && samepool()
-//@   modifies pool, blknode, cacheown
+//@   ensures blknode[result#arr] == 0 && cacheown[result#arr] == nil && peekown[result#arr] == nil && samepool()
+//@   modifies pool, blknode, cacheown, peekown
 //@
 //@ func free
 //@   trusted wraps mcache.Free; the pool contract is assumed: the block must be live, whole (base 0) and not yet returned
@@ -142,7 +145,7 @@ package netpoll
 //@   ensures size <= 0 ==> result.mode == 1 && cap(result.buf) == 0 && result.buf == nil
 //@   ensures size > 0 ==> result.mode == 0 && cap(result.buf) >= size && fresh(result.buf) && managedok(result)
 //@   ensures samepool()
-//@   modifies pool, blknode, cacheown
+//@   modifies pool, blknode, cacheown, peekown
 //@   ghost at return: if size > 0 then blknode[result.buf#arr] = result
 
 //@ func (*UnsafeLinkBuffer).Next
@@ -154,9 +157,9 @@ package netpoll
 //@   ensures old(n > 0 && b.length >= n) ==> err == nil && len(p) == n && wf(b) && rpos(b) == old(rpos(b)) + n && b.length == old(b.length) - n
 //@   ensures old(n > 0 && b.length >= n) ==> fresh(p) || (p#arr == b.read.buf#arr && p#base == b.read.buf#base + b.read.off - n && b.read.mode & 2 != 0)
 //@   ensures forall m *linkBufferNode :: !inb(b, m) ==> m.off == old(m.off) && m.mode == old(m.mode)
-//@   ensures forall a int :: a > 0 && wasalloc(a) ==> pool[a] == old(pool[a]) && blknode[a] == old(blknode[a]) && cacheown[a] == old(cacheown[a]) && cacheidx[a] == old(cacheidx[a])
-//@   modifies b.length, b.read, b.cachePeek, b.caches, linkBufferNode.off, linkBufferNode.mode, mem:[]byte, pool, blknode, cacheown, cacheidx
-//@   ghost after store caches#1: cacheown[p#arr] = b; cacheidx[p#arr] = len(b.caches) - 1
+//@   ensures forall a int :: a > 0 && wasalloc(a) ==> pool[a] == old(pool[a]) && blknode[a] == old(blknode[a]) && cacheown[a] == old(cacheown[a]) && cacheidx[a] == old(cacheidx[a]) && cachesof[a] == old(cachesof[a]) && peekown[a] == old(peekown[a])
+//@   modifies b.length, b.read, b.cachePeek, b.caches, linkBufferNode.off, linkBufferNode.mode, mem:[]byte, pool, blknode, cacheown, cacheidx, cachesof, peekown
+//@   ghost after store caches#1: cacheown[p#arr] = b; cacheidx[p#arr] = len(b.caches) - 1; cachesof[b.caches#arr] = b
 //@   loop 1 invariant ack > 0 && pIdx >= 0 && pIdx + ack == n && len(p) == n && fresh(p) && wfs(b)
 //@   loop 1 invariant b.read.ord >= old(b.read.ord) && rpos(b) + ack == old(rpos(b)) + n && fpos(b) - rpos(b) >= ack
 //@   loop 1 invariant b.length == old(b.length) - n && b.mallocSize == old(b.mallocSize) && fpos(b) == old(fpos(b)) && mpos(b) == old(mpos(b))
@@ -171,8 +174,9 @@ package netpoll
 //@   ensures old(n > 0 && b.length >= n) ==> err == nil && len(p) == n && wf(b) && rpos(b) == old(rpos(b))
 //@   ensures old(n > 0 && b.length >= n) ==> p#arr == b.cachePeek#arr || (p#arr == b.read.buf#arr && p#base == b.read.buf#base + b.read.off && b.read.mode & 2 != 0)
 //@   ensures forall m *linkBufferNode :: !inb(b, m) ==> m.mode == old(m.mode)
-//@   ensures forall a int :: a > 0 && wasalloc(a) && a != old(b.cachePeek#arr) ==> pool[a] == old(pool[a]) && blknode[a] == old(blknode[a]) && cacheown[a] == old(cacheown[a]) && cacheidx[a] == old(cacheidx[a])
-//@   modifies b.read, b.cachePeek, b.peekpos, linkBufferNode.mode, mem, pool, blknode, cacheown, cacheidx
+//@   ensures forall a int :: a > 0 && wasalloc(a) && a != old(b.cachePeek#arr) ==> pool[a] == old(pool[a]) && blknode[a] == old(blknode[a]) && cacheown[a] == old(cacheown[a]) && cacheidx[a] == old(cacheidx[a]) && cachesof[a] == old(cachesof[a]) && peekown[a] == old(peekown[a])
+//@   modifies b.read, b.cachePeek, b.peekpos, linkBufferNode.mode, mem, pool, blknode, cacheown, cacheidx, cachesof, peekown
+//@   ghost after store cachePeek#2: peekown[b.cachePeek#arr] = b
 //@   ghost after store cachePeek#3: b.peekpos = b.read.sp + b.read.off
 //@   loop 1 invariant len(p) <= n && (scanned <= len(p) || len(p) == n) && 0 <= scanned && p#arr != 0 && len(p) <= cap(p) && n <= cap(p)
 //@   loop 1 invariant p#arr == b.cachePeek#arr && p#base == 0 && cap(p) == cap(b.cachePeek)
@@ -235,7 +239,7 @@ package netpoll
 //@     && m.next == old(m.next) && m.origin == old(m.origin) && sameslice(m.buf, old(m.buf))
 //@     && m.own == old(m.own) && m.ord == old(m.ord) && m.sp == old(m.sp) && m.kids == old(m.kids)
 // pool blocks that existed before and are not touched by this operation keep their state and holder
-//@ pred samepool() = forall a int :: a > 0 && wasalloc(a) ==> pool[a] == old(pool[a]) && blknode[a] == old(blknode[a]) && cacheown[a] == old(cacheown[a]) && cacheidx[a] == old(cacheidx[a])
+//@ pred samepool() = forall a int :: a > 0 && wasalloc(a) ==> pool[a] == old(pool[a]) && blknode[a] == old(blknode[a]) && cacheown[a] == old(cacheown[a]) && cacheidx[a] == old(cacheidx[a]) && cachesof[a] == old(cachesof[a]) && peekown[a] == old(peekown[a])
 //@ pred others(b *UnsafeLinkBuffer) = forall m *linkBufferNode {m.own} ::
 //@     (wasalloc(m) && old(m.own) != b ==> samenode(m)) && (m != nil && m.own != old(m.own) ==> m.own == b || m.own == nil)
 
@@ -251,7 +255,7 @@ package netpoll
 //@   ensures n > 0 ==> b.write.mode & 1 == 0 && cap(b.write.buf) - b.write.malloc >= n
 //@   ensures n <= 0 ==> b.write == old(b.write)
 //@   ensures samepool()
-//@   modifies b.write, linkBufferNode.next, linkBufferNode.own, linkBufferNode.ord, linkBufferNode.sp, pool, blknode, cacheown, cacheidx
+//@   modifies b.write, linkBufferNode.next, linkBufferNode.own, linkBufferNode.ord, linkBufferNode.sp, pool, blknode, cacheown, cacheidx, cachesof, peekown
 //@   ghost after store next#1: attach(b, b.write, value)
 //@   ghost before store write#2: value.sp = b.write.sp + b.write.malloc - value.off
 //@   loop 1 invariant samepool() && wfs(b) && others(b) && b.write.ord >= old(b.write.ord) && mpos(b) == old(mpos(b)) && rpos(b) == old(rpos(b)) && fpos(b) == old(fpos(b))
@@ -266,7 +270,7 @@ package netpoll
 //@   ensures err == nil && others(b) && b.length == old(b.length) && rpos(b) == old(rpos(b)) && fpos(b) == old(fpos(b)) && (old(n > 0) ==> b.mallocSize == old(b.mallocSize) + n) && (old(n <= 0) ==> b.mallocSize == old(b.mallocSize))
 //@   ensures old(n > 0) ==> buf#arr == b.write.buf#arr && buf#base == b.write.buf#base + b.write.malloc - n && b.write.mode & 1 == 0
 //@   ensures samepool()
-//@   modifies b.mallocSize, b.write, linkBufferNode.next, linkBufferNode.malloc, linkBufferNode.own, linkBufferNode.ord, linkBufferNode.sp, pool, blknode, cacheown, cacheidx
+//@   modifies b.mallocSize, b.write, linkBufferNode.next, linkBufferNode.malloc, linkBufferNode.own, linkBufferNode.ord, linkBufferNode.sp, pool, blknode, cacheown, cacheidx, cachesof, peekown
 
 //@ func (*UnsafeLinkBuffer).MallocLen
 //@   property C01
@@ -296,7 +300,7 @@ package netpoll
 //@   ensures err == nil && wf(b) && others(b) && b.mallocSize == 0 && b.length == old(b.length) + old(b.mallocSize)
 //@   ensures rpos(b) == old(rpos(b)) && fpos(b) == old(mpos(b))
 //@   ensures samepool()
-//@   modifies b.mallocSize, b.write, b.flush, b.length, linkBufferNode.next, linkBufferNode.buf, linkBufferNode.own, linkBufferNode.ord, linkBufferNode.sp, pool, blknode, cacheown, cacheidx
+//@   modifies b.mallocSize, b.write, b.flush, b.length, linkBufferNode.next, linkBufferNode.buf, linkBufferNode.own, linkBufferNode.ord, linkBufferNode.sp, pool, blknode, cacheown, cacheidx, cachesof, peekown
 //@   ghost after store next#1: attach(b, b.write, value)
 //@   loop 1 invariant samepool() && wfmono(b) && wfcaches(b) && wfhead(b) && wfref(b) && wfpool(b) && wfpeek(b) && wfcur(b) && wflin(b) && wfclosed(b) && wfuniq(b) && wfnode(b) && wfpos(b) && others(b) && b.flush == old(b.flush)
 //@   loop 1 invariant b.length == old(b.length) && rpos(b) == old(rpos(b)) && mpos(b) == old(mpos(b)) && n >= 0
@@ -316,7 +320,7 @@ package netpoll
 //@   ensures old(len(p) > 4096) ==> b.write.mode & 1 == 1 && b.write.buf#arr == p#arr && b.write.buf#base == p#base
 //@   ensures old(len(p) > 0 && len(p) <= 4096) ==> b.write.mode & 1 == 0
 //@   ensures samepool()
-//@   modifies b.mallocSize, b.write, linkBufferNode.next, linkBufferNode.malloc, linkBufferNode.buf, linkBufferNode.own, linkBufferNode.ord, linkBufferNode.sp, mem, pool, blknode, cacheown, cacheidx
+//@   modifies b.mallocSize, b.write, linkBufferNode.next, linkBufferNode.malloc, linkBufferNode.buf, linkBufferNode.own, linkBufferNode.ord, linkBufferNode.sp, mem, pool, blknode, cacheown, cacheidx, cachesof, peekown
 //@   ghost after store next#1: attach(b, b.write, value)
 
 //@ func (*UnsafeLinkBuffer).WriteString
@@ -326,7 +330,7 @@ package netpoll
 //@   ensures old(len(s) == 0) ==> n == 0 && err == nil && unchanged(UnsafeLinkBuffer.mallocSize, UnsafeLinkBuffer.write, linkBufferNode.malloc, linkBufferNode.next, linkBufferNode.buf)
 //@   ensures n == len(s) && err == nil && others(b) && b.mallocSize == old(b.mallocSize) + len(s) && b.length == old(b.length) && rpos(b) == old(rpos(b)) && fpos(b) == old(fpos(b))
 //@   ensures samepool()
-//@   modifies b.mallocSize, b.write, linkBufferNode.next, linkBufferNode.malloc, linkBufferNode.buf, linkBufferNode.own, linkBufferNode.ord, linkBufferNode.sp, mem, pool, blknode, cacheown, cacheidx
+//@   modifies b.mallocSize, b.write, linkBufferNode.next, linkBufferNode.malloc, linkBufferNode.buf, linkBufferNode.own, linkBufferNode.ord, linkBufferNode.sp, mem, pool, blknode, cacheown, cacheidx, cachesof, peekown
 
 //@ func (*UnsafeLinkBuffer).WriteByte
 //@   property C01
@@ -334,7 +338,7 @@ package netpoll
 //@   ensures wf(b)
 //@   ensures err == nil && wf(b) && others(b) && b.mallocSize == old(b.mallocSize) + 1 && b.length == old(b.length) && rpos(b) == old(rpos(b)) && fpos(b) == old(fpos(b))
 //@   ensures samepool()
-//@   modifies b.mallocSize, b.write, linkBufferNode.next, linkBufferNode.malloc, linkBufferNode.own, linkBufferNode.ord, linkBufferNode.sp, mem, pool, blknode, cacheown, cacheidx
+//@   modifies b.mallocSize, b.write, linkBufferNode.next, linkBufferNode.malloc, linkBufferNode.own, linkBufferNode.ord, linkBufferNode.sp, mem, pool, blknode, cacheown, cacheidx, cachesof, peekown
 
 // ---- the book/ack pair the poller uses on the input buffer ----
 // nopend: nothing pending, and no caller-memory node with spare capacity (true of a connection's input
@@ -353,7 +357,7 @@ package netpoll
 //@   ensures booked(b, len(p)) && others(b) && len(p) >= 1 && len(p) <= bookSize && b.length == old(b.length) && rpos(b) == old(rpos(b)) && fpos(b) == old(fpos(b))
 //@   ensures p#arr == b.write.buf#arr && p#base == b.write.buf#base + len(b.write.buf) && b.write.mode & 1 == 0
 //@   ensures samepool()
-//@   modifies b.write, linkBufferNode.next, linkBufferNode.malloc, linkBufferNode.own, linkBufferNode.ord, linkBufferNode.sp, pool, blknode, cacheown, cacheidx
+//@   modifies b.write, linkBufferNode.next, linkBufferNode.malloc, linkBufferNode.own, linkBufferNode.ord, linkBufferNode.sp, pool, blknode, cacheown, cacheidx, cachesof, peekown
 //@   ghost after store next#1: attach(b, b.write, value)
 
 //@ func (*UnsafeLinkBuffer).bookAck
@@ -369,7 +373,7 @@ package netpoll
 //@   ensures wf(b)
 //@   ensures wf(b) && nopend(b) && others(b) && b.length == old(b.length) && rpos(b) == old(rpos(b)) && fpos(b) == old(fpos(b))
 //@   ensures samepool()
-//@   modifies b.write, b.flush, linkBufferNode.next, linkBufferNode.own, linkBufferNode.ord, linkBufferNode.sp, pool, blknode, cacheown, cacheidx
+//@   modifies b.write, b.flush, linkBufferNode.next, linkBufferNode.own, linkBufferNode.ord, linkBufferNode.sp, pool, blknode, cacheown, cacheidx, cachesof, peekown
 //@   ghost after store next#1: attach(b, b.write, value)
 
 //@ func (*UnsafeLinkBuffer).calcMaxSize
@@ -402,19 +406,21 @@ package netpoll
 //@   requires wfs(b)
 //@   ensures err == nil && wfs(b) && others(b) && b.length == old(b.length) && rpos(b) == old(rpos(b)) && fpos(b) == old(fpos(b)) && b.mallocSize == old(b.mallocSize)
 //@   ensures b.head == b.read && len(b.caches) == 0 && b.cachePeek == nil && (forall m *linkBufferNode :: inb(b, m) ==> old(m.own) == b)
-//@   ensures forall a int :: a > 0 && wasalloc(a) ==> blknode[a] == old(blknode[a]) && cacheown[a] == old(cacheown[a]) && cacheidx[a] == old(cacheidx[a])
+//@   ensures memframe([]byte, old(b.caches))
+//@   ensures forall a int :: a > 0 && wasalloc(a) ==> blknode[a] == old(blknode[a]) && cacheown[a] == old(cacheown[a]) && cacheidx[a] == old(cacheidx[a]) && cachesof[a] == old(cachesof[a]) && peekown[a] == old(peekown[a])
 //@   ensures forall a int :: pool[a] != old(pool[a]) ==> (old(blknode[a]) != nil && old(blknode[a].own) == b) || old(cacheown[a]) == b || a == old(b.cachePeek#arr)
 //@   modifies b.read, b.head, b.caches, b.cachePeek, linkBufferNode.refer, linkBufferNode.buf, linkBufferNode.origin, linkBufferNode.next, linkBufferNode.own, pool, mem:[]byte
 //@   ghost after call (*linkBufferNode).Release#1: node.own = nil
 //@   loop 1 invariant inb(b, b.read) && b.read.ord >= old(b.read.ord) && b.read.ord <= b.flush.ord && rpos(b) == old(rpos(b))
 //@   loop 2 invariant wfs(b) && others(b) && rpos(b) == old(rpos(b)) && fpos(b) == old(fpos(b)) && mpos(b) == old(mpos(b))
-//@   loop 2 invariant forall a int :: a > 0 && wasalloc(a) ==> blknode[a] == old(blknode[a]) && cacheown[a] == old(cacheown[a]) && cacheidx[a] == old(cacheidx[a])
+//@   loop 2 invariant forall a int :: a > 0 && wasalloc(a) ==> blknode[a] == old(blknode[a]) && cacheown[a] == old(cacheown[a]) && cacheidx[a] == old(cacheidx[a]) && cachesof[a] == old(cachesof[a]) && peekown[a] == old(peekown[a])
 //@   loop 2 invariant forall m *linkBufferNode :: inb(b, m) ==> old(m.own) == b
 //@   loop 2 invariant forall a int :: pool[a] != old(pool[a]) ==> (old(blknode[a]) != nil && old(blknode[a].own) == b) || old(cacheown[a]) == b || a == old(b.cachePeek#arr)
 //@   loop 3 invariant -1 <= rangeindex && wfmono(b) && wfhead(b) && wfcur(b) && wflin(b) && wfclosed(b) && wfuniq(b) && wfnode(b) && wfshape(b) && wfpos(b) && wfref(b) && wfpool(b) && wfpeek(b)
 //@   loop 3 invariant others(b) && b.head == b.read && rpos(b) == old(rpos(b)) && fpos(b) == old(fpos(b)) && mpos(b) == old(mpos(b))
 //@   loop 3 invariant forall a int :: pool[a] != old(pool[a]) ==> (old(blknode[a]) != nil && old(blknode[a].own) == b) || old(cacheown[a]) == b || a == old(b.cachePeek#arr)
-//@   loop 3 invariant forall a int :: a > 0 && wasalloc(a) ==> blknode[a] == old(blknode[a]) && cacheown[a] == old(cacheown[a]) && cacheidx[a] == old(cacheidx[a])
+//@   loop 3 invariant forall a int :: a > 0 && wasalloc(a) ==> blknode[a] == old(blknode[a]) && cacheown[a] == old(cacheown[a]) && cacheidx[a] == old(cacheidx[a]) && cachesof[a] == old(cachesof[a]) && peekown[a] == old(peekown[a])
+//@   loop 3 invariant memframe([]byte, old(b.caches)) && b.caches#arr == old(b.caches#arr)
 //@   loop 3 invariant len(b.caches) >= 0 && (b.caches != nil ==> allocated(b.caches)) && (b.cachePeek != nil ==> cacheown[b.cachePeek#arr] == nil)
 //@   loop 3 invariant forall i int {b.caches[i]#arr}{b.caches[i]#base}{b.caches[i]#cap} :: rangeindex < i && i < len(b.caches) ==> cacheok(b, i)
 
@@ -432,7 +438,7 @@ package netpoll
 //@   property C01
 //@   ensures fresh(result) && wf(result) && result.length == 0 && result.mallocSize == 0 && result.head == result.read && samepool()
 //@   ensures len(result.caches) == 0 && result.cachePeek == nil && nopend(result)
-//@   modifies pool, blknode, cacheown, linkBufferNode.own, linkBufferNode.ord, linkBufferNode.sp
+//@   modifies pool, blknode, cacheown, peekown, linkBufferNode.own, linkBufferNode.ord, linkBufferNode.sp
 //@   ghost after call newLinkBufferNode#1: result.own = buf; result.ord = 0; result.sp = 0
 
 // ---- the vectors taken for sending ----
@@ -481,8 +487,8 @@ package netpoll
 //@   ensures err == nil ==> len(line) > 0 && wf(b) && rpos(b) == old(rpos(b)) + len(line) && b.length == old(b.length) - len(line)
 //@   ensures err != nil ==> unchanged(UnsafeLinkBuffer.length, UnsafeLinkBuffer.read, linkBufferNode.off, UnsafeLinkBuffer.cachePeek, UnsafeLinkBuffer.caches, linkBufferNode.mode)
 //@   ensures forall m *linkBufferNode :: !inb(b, m) ==> m.off == old(m.off) && m.mode == old(m.mode)
-//@   ensures forall a int :: a > 0 && wasalloc(a) ==> pool[a] == old(pool[a]) && blknode[a] == old(blknode[a]) && cacheown[a] == old(cacheown[a]) && cacheidx[a] == old(cacheidx[a])
-//@   modifies b.length, b.read, b.cachePeek, b.caches, linkBufferNode.off, linkBufferNode.mode, mem:[]byte, pool, blknode, cacheown, cacheidx
+//@   ensures forall a int :: a > 0 && wasalloc(a) ==> pool[a] == old(pool[a]) && blknode[a] == old(blknode[a]) && cacheown[a] == old(cacheown[a]) && cacheidx[a] == old(cacheidx[a]) && cachesof[a] == old(cachesof[a]) && peekown[a] == old(peekown[a])
+//@   modifies b.length, b.read, b.cachePeek, b.caches, linkBufferNode.off, linkBufferNode.mode, mem:[]byte, pool, blknode, cacheown, cacheidx, cachesof, peekown
 
 //@ func (*UnsafeLinkBuffer).Bytes
 //@   property C16
@@ -499,16 +505,16 @@ package netpoll
 //@ func (*UnsafeLinkBuffer).Close
 //@   property C03 C12
 //@   requires wfs(b)
-//@   ensures err == nil && closedbuf(b) && others(b)
+//@   ensures err == nil && closedbuf(b) && others(b) && memframe([]byte, old(b.caches))
 //@   ensures forall a int :: pool[a] != old(pool[a]) ==> (old(blknode[a]) != nil && old(blknode[a].own) == b) || old(cacheown[a]) == b || a == old(b.cachePeek#arr)
-//@   ensures forall a int :: a > 0 && wasalloc(a) ==> blknode[a] == old(blknode[a]) && cacheown[a] == old(cacheown[a]) && cacheidx[a] == old(cacheidx[a])
+//@   ensures forall a int :: a > 0 && wasalloc(a) ==> blknode[a] == old(blknode[a]) && cacheown[a] == old(cacheown[a]) && cacheidx[a] == old(cacheidx[a]) && cachesof[a] == old(cachesof[a]) && peekown[a] == old(peekown[a])
 //@   modifies b.length, b.mallocSize, b.read, b.head, b.flush, b.write, b.caches, b.cachePeek, linkBufferNode.refer, linkBufferNode.buf, linkBufferNode.origin, linkBufferNode.next, linkBufferNode.own, pool, mem:[]byte
 //@   ghost after call (*linkBufferNode).Release#1: nd.own = nil
 //@   loop 1 invariant wflin(b) && wfclosed(b) && wfuniq(b) && wfnode(b) && wfpool(b) && others(b) && len(b.caches) == 0 && b.cachePeek == nil
 //@   loop 1 invariant forall m *linkBufferNode :: inb(b, m) ==> m.origin == nil && m.refer >= 1
 //@   loop 1 invariant node == nil ==> (forall m *linkBufferNode :: !inb(b, m))
 //@   loop 1 invariant node != nil ==> inb(b, node) && (forall m *linkBufferNode :: inb(b, m) ==> m.ord >= node.ord)
-//@   loop 1 invariant forall a int :: a > 0 && wasalloc(a) ==> blknode[a] == old(blknode[a]) && cacheown[a] == old(cacheown[a]) && cacheidx[a] == old(cacheidx[a])
+//@   loop 1 invariant forall a int :: a > 0 && wasalloc(a) ==> blknode[a] == old(blknode[a]) && cacheown[a] == old(cacheown[a]) && cacheidx[a] == old(cacheidx[a]) && cachesof[a] == old(cachesof[a]) && peekown[a] == old(peekown[a])
 //@   loop 1 invariant forall m *linkBufferNode :: inb(b, m) ==> old(m.own) == b
 //@   loop 1 invariant forall a int :: pool[a] != old(pool[a]) ==> (old(blknode[a]) != nil && old(blknode[a].own) == b) || old(cacheown[a]) == b || a == old(b.cachePeek#arr)
 
@@ -517,7 +523,7 @@ package netpoll
 //@   requires wf(b)
 //@   ensures wf(b) && others(b) && 0 <= n && n <= len(p) && n <= old(b.length) && (n == len(p) || n == old(b.length))
 //@   ensures rpos(b) == old(rpos(b)) + n && b.length == old(b.length) - n && fpos(b) == old(fpos(b)) && b.mallocSize == old(b.mallocSize)
-//@   ensures forall a int :: a > 0 && wasalloc(a) ==> blknode[a] == old(blknode[a]) && cacheown[a] == old(cacheown[a]) && cacheidx[a] == old(cacheidx[a])
+//@   ensures forall a int :: a > 0 && wasalloc(a) ==> blknode[a] == old(blknode[a]) && cacheown[a] == old(cacheown[a]) && cacheidx[a] == old(cacheidx[a]) && cachesof[a] == old(cachesof[a]) && peekown[a] == old(peekown[a])
 //@   ensures forall a int :: pool[a] != old(pool[a]) ==> old(blknode[a]) != nil && old(blknode[a].own) == b
 //@   modifies b.length, b.read, b.head, b.cachePeek, linkBufferNode.off, linkBufferNode.refer, linkBufferNode.buf, linkBufferNode.origin, linkBufferNode.next, linkBufferNode.own, pool, mem
 //@   ghost before call (*linkBufferNode).Release#1: assert forall x *linkBufferNode :: inb(b, x) && x.ord < cur.ord ==> prev != nil && x.ord <= prev.ord; assert forall x *linkBufferNode :: inb(b, x) && x.next == cur ==> x == prev
@@ -538,6 +544,6 @@ package netpoll
 //@   loop 3 invariant prev == nil ==> newHead == b.read && (forall m *linkBufferNode :: inb(b, m) ==> m.ord >= cur.ord || cur == b.read && m.ord >= b.read.ord)
 //@   loop 3 invariant prev != nil ==> inb(b, prev) && inb(b, newHead) && newHead.ord <= prev.ord && prev.next == cur && (cur == b.read || prev.ord < cur.ord) && prev.ord < b.read.ord
 //@   loop 3 invariant prev != nil ==> (forall m *linkBufferNode :: inb(b, m) ==> m.ord >= newHead.ord) && (forall m *linkBufferNode :: inb(b, m) && m.ord > prev.ord ==> m.ord >= cur.ord)
-//@   loop 3 invariant forall a int :: a > 0 && wasalloc(a) ==> blknode[a] == old(blknode[a]) && cacheown[a] == old(cacheown[a]) && cacheidx[a] == old(cacheidx[a])
+//@   loop 3 invariant forall a int :: a > 0 && wasalloc(a) ==> blknode[a] == old(blknode[a]) && cacheown[a] == old(cacheown[a]) && cacheidx[a] == old(cacheidx[a]) && cachesof[a] == old(cachesof[a]) && peekown[a] == old(peekown[a])
 //@   loop 3 invariant forall a int :: pool[a] != old(pool[a]) ==> old(blknode[a]) != nil && old(blknode[a].own) == b
 //@   loop 3 invariant forall m *linkBufferNode :: inb(b, m) ==> old(m.own) == b
